@@ -44,6 +44,7 @@ def _plan(draw, max_rows):
     order = draw(st.permutations(range(len(cols))))
     keys = draw(st.permutations(keys))
     plan = {"frame": {"n": n, "cols": [cols[i] for i in order]}, "keys": [list(k) for k in keys]}
+    draw(gen.decorate(plan["frame"]))
     if n >= 2 and draw(st.integers(0, 11)) == 0:
         # all keys plain numbers of different kinds: 64-bit integers that a float64 cannot tell apart must still
         # be ordered exactly (no stacking of the keys into one common dtype)
